@@ -677,6 +677,7 @@ func ruleD2(w *world.World, r *report.RuleResult) {
 		}
 		return false
 	}
+	aofStandalone := aofEngineOnlyStandalone(w)
 	isLog := func(in ssa.Instruction) bool {
 		for _, c := range d.logCalls {
 			if in == ssa.Instruction(c) {
@@ -706,6 +707,17 @@ func ruleD2(w *world.World, r *report.RuleResult) {
 				f |= DONE
 			} else {
 				f |= WR
+			}
+		}
+		// The AOF is a standalone facility: when the engine is created only on the not-in-cluster
+		// branch of the constructor, a handler run on an in-cluster edge has no log to append to.
+		if aofStandalone {
+			c, neg := iff.Cond, false
+			if u, ok := c.(*ssa.UnOp); ok && u.Op == token.NOT {
+				c, neg = u.X, true
+			}
+			if isClusterTest(c) && (si == 0) != neg {
+				f |= DONE
 			}
 		}
 		return f
@@ -1438,4 +1450,64 @@ func ruleD8(w *world.World, r *report.RuleResult) {
 			}
 		}
 	}
+}
+
+
+// isClusterTest: v is a call of the module's in-cluster predicate (SugarDB.isInCluster).
+func isClusterTest(v ssa.Value) bool {
+	c, ok := v.(*ssa.Call)
+	if !ok {
+		return false
+	}
+	f := c.Call.StaticCallee()
+	return f != nil && world.InModule(f) && f.Name() == "isInCluster"
+}
+
+// aofEngineOnlyStandalone: every store to a SugarDB field of type *aof.Engine lies on an edge
+// where the in-cluster predicate is false (the AOF engine exists only in standalone mode), and
+// there is at least one such store.
+func aofEngineOnlyStandalone(w *world.World) bool {
+	const NC world.Facts = 1
+	n := 0
+	for _, fn := range w.FuncsIn("sugardb") {
+		var stores []ssa.Instruction
+		for _, b := range fn.Blocks {
+			for _, in := range b.Instrs {
+				st, ok := in.(*ssa.Store)
+				if !ok {
+					continue
+				}
+				fa, ok := st.Addr.(*ssa.FieldAddr)
+				if !ok || !world.TypeIs(world.FieldOf(fa).Type(), "internal/aof", "Engine") {
+					continue
+				}
+				stores = append(stores, in)
+			}
+		}
+		if len(stores) == 0 {
+			continue
+		}
+		eg := func(b *ssa.BasicBlock, si int) world.Facts {
+			iff := world.IfOf(b)
+			if iff == nil {
+				return 0
+			}
+			c, neg := iff.Cond, false
+			if u, ok := c.(*ssa.UnOp); ok && u.Op == token.NOT {
+				c, neg = u.X, true
+			}
+			if isClusterTest(c) && (si == 0) == neg {
+				return NC
+			}
+			return 0
+		}
+		in := world.Must(fn, eg, nil, nil)
+		for _, st := range stores {
+			n++
+			if world.FactsAt(in, st, nil, nil)&NC == 0 {
+				return false
+			}
+		}
+	}
+	return n > 0
 }
